@@ -66,7 +66,13 @@ def _inv_case(ctx, struct, ops, cplx, subset, prestate, legflags, consume):
         ctx.fail(f'{tag}: returns an Array', repr(type(R)))
         return
     full = res[1] if (name == 'as_completely_blocked') else R
-    C.check_invariants(ctx, full, f'{tag}: result')
+    if sc.results is not None:
+        for k, Rk in enumerate(sc.results(res)):
+            C.check_invariants(ctx, Rk, f'{tag}: result {k}')
+        for Rk, want in sc.qtotals(res):
+            ctx.prove(C.mod_equal(ctx, Rk.qtotal, want, Rk.chinfo), f'{tag}: qtotal is the documented function of the operands')
+    else:
+        C.check_invariants(ctx, full, f'{tag}: result')
     ch = sc.ch or W.ch
     if getattr(sc, 'qtotal_fn', None) is not None:
         sc.qtotal = sc.qtotal_fn()
@@ -78,12 +84,13 @@ def _inv_case(ctx, struct, ops, cplx, subset, prestate, legflags, consume):
 
 # operations for which the symbolic choice of the stored-block subset is run in the quick tier (missing blocks matter most)
 CHOOSE_OPS = {('add', 'same'), ('tensordot', 'full'), ('inner', 'range'), ('transpose', 'none'), ('combine_legs', 'all'), ('take_slice', 'one'),
-              ('iproject', 'mask'), ('ipurge_zeros', 'cutoff'), ('trace', 'rank3_labels')}
+              ('iproject', 'mask'), ('ipurge_zeros', 'cutoff'), ('trace', 'rank3_labels'), ('qr', 'qtotal_Q')}
 # core selection for the slow Z3 structure in the quick tier
 CORE_OPS = CHOOSE_OPS | {('tensordot', 'labels'), ('outer', 'd'), ('conj', 'd'), ('itranspose', 'perm'), ('iswapaxes', 'first_last'), ('sub', 'same'),
                          ('split_legs', 'unsorted'), ('getitem', 'negstep'), ('setitem', 'slice_npc'), ('sort_legcharge', 'default'),
-                         ('concatenate', 'axis0'), ('gauge_total_charge', 'new'), ('squeeze', 'none'), ('extend', 'leg'), ('add_trivial_leg', 'front'),
+                         ('concatenate', 'axis0'), ('gauge_total_charge', 'flip'), ('qr', 'complete_qconj'), ('svd', 'qtotal_LR'), ('squeeze', 'none'), ('extend', 'leg'), ('add_trivial_leg', 'front'),
                          ('permute', 'first'), ('scale_axis', 'first'), ('drop_charge', 'last'), ('from_ndarray', 'roundtrip'), ('copy', 'shallow')}
+PROJ_OPS = [('iproject', 'mask'), ('getitem', 'mask')]
 QUICK_CONSUMERS = ('add', 'tensordot', 'sort_legcharge', 'legsort')
 ALL_CONSUMERS = ('add', 'radd', 'tensordot', 'inner', 'sort_legcharge', 'legsort')
 
@@ -146,6 +153,12 @@ def CASES(tier, seed):
                               fn='inv_case', params=dict(struct=st, ops=chunk, cplx=(si % 2 == 0),
                                                          consume=list((('add', 'sort_legcharge') if cb['subset'] == 'choose' else QUICK_CONSUMERS) if quick else ALL_CONSUMERS),
                                                          **cb), opts=OA))
+    # Tier A structure with a three-block leg for the projecting operations (bunched-but-not-blocked legs: charges q, p, q)
+    st3 = dict(tier='A', mods=[1], rank=2, legs=[dict(sizes=[1, 2], qconj=1), dict(sizes=[1, 1, 1], qconj=-1), dict(sizes=[1, 1], qconj=1)])
+    for ci, o in enumerate(PROJ_OPS):
+        cases.append(dict(name=f"A3[mod=[1],three-block leg,all,sorted,flags=computed,opt=0]ops{ci}:{o[0]}/{o[1]}", fn='inv_case',
+                          params=dict(struct=st3, ops=[o], cplx=False, consume=['legsort', 'sort_legcharge'], **dict(c_all, prestate='sorted', opt_level=0)),
+                          opts=OA))
     OB = dict(max_paths=40000, max_wall_s=220 if quick else 1600, validate_paths=2, hard_timeout_s=235 if quick else 1750)
     for si, st in enumerate(P1.structs_B(tier, seed)):
         if (quick and si in (3, 4, 5, 6)) or st['rank'] > 3:
